@@ -1,6 +1,7 @@
 (* C07 driver.  stdin: "case <id>", ops, "end".
    ops:  S <instr>*  |  T <dt>  |  X
-   instr: p<m> | r | w<ms> | t<o><n> (waittill) | y<o><n>+ (waittill_any) | n<o><n> (notify)
+   instr: p<m> | r | w<ms> | t<o><n> (waittill) | y<o><n>+ (waittill_any) | u<o><ms><n> (waittill_timeout)
+        | v<o><ms><n>+ (waittill_any_timeout) | n<o><n> (notify)
         | e<o><n> (endon) | d<o> (delete) | s<o> (spawn) | th[ <instr>* ] | wt[ <instr>* ]
         | end | end<v>          (o = slot digit, n = a|b|c)
    prints per op  m <prints|-> idle=<0|1> ns=<scripts> nt=<threads> tm=<0|1> sz=<9 sizes> stale=<0|1>  (model)
@@ -31,6 +32,9 @@ let rec parse_prog (ws : string list) : instr list * string list =
       | 't' -> one (IWaitTill (digit w.[1], sname_of w.[2]))
       | 'y' -> one (IWaitTillAny (digit w.[1],
                  List.init (String.length w - 2) (fun i -> sname_of w.[i + 2])))
+      | 'u' -> one (IWaitTillTimeout (digit w.[1], digit w.[2], sname_of w.[3]))
+      | 'v' -> one (IWaitTillAnyTimeout (digit w.[1], digit w.[2],
+                 List.init (String.length w - 3) (fun i -> sname_of w.[i + 3])))
       | 'n' -> one (INotify (digit w.[1], sname_of w.[2]))
       | 'e' -> one (IEndOn (digit w.[1], sname_of w.[2]))
       | 'd' -> one (IDelete (digit w.[1]))
